@@ -145,6 +145,15 @@ def p9(chk, repo, rule="P9"):
                         chk.undecided(rule, key, wh, "partial type (%s,%s) vs expected (%s,%s)" % (tp.h, tp.f, eh, ef))
 
 
+def x3(chk, repo):
+    """Fuel loads of the modelled half: (fuel_mass + Wf_reserve) g n / 2 under symmetry,
+    the whole of it for a full model (shared with C16-W2c, here for the half/full clause)."""
+    from .c16 import w2c
+
+    w2c(chk, repo, rule="X3", only=("FuelLoads",), min_decided=2)
+
+
 def run(chk, repo, tier):
     x1(chk, repo)
     p9(chk, repo)
+    x3(chk, repo)
